@@ -1,11 +1,21 @@
 --------------------------- MODULE MCConfig ---------------------------
 (* Every option sequence of up to MaxOpts options x loader kinds x documents over the leaf paths. *)
 EXTENDS Config
-CONSTANT MaxOpts
-KeySets == {{"a"}, {"a", "c.x"}, {}}
+CONSTANTS MaxOpts,
+          AddLKs, SetLKs,   \* loader kinds offered to AddConfigLoader / SetConfigLoader
+          Joins,            \* {FALSE} or BOOLEAN: variadic calls
+          KeySets
+\* (named sets for the configuration files: `KeySets <- KS3` ...)
+KS3 == {{"a"}, {"a", "c.x"}, {}}
+KS2 == {{"a"}, {"a", "c.x"}}
+LKBuiltin == {"raw", "args", "file"}
+LKOrdered == {"raw", "file", "ordm", "ordp", "priom"}     \* user-written ordered / priority loaders next to the built-in kinds
+NoLK == {}
+JoinNo == {FALSE}
+JoinBoth == BOOLEAN
 Vals == {1, 2}
-Opts == [kind : {"add"}, lk : {"raw", "args", "file"}, keys : KeySets, val : Vals, join : BOOLEAN]
-        \cup [kind : {"set"}, lk : {"raw", "args", "file"}, keys : KeySets, val : Vals, join : {FALSE}]
+Opts == [kind : {"add"}, lk : AddLKs, keys : KeySets, val : Vals, join : Joins]
+        \cup [kind : {"set"}, lk : SetLKs, keys : KeySets, val : Vals, join : {FALSE}]
         \cup [kind : {"file"}, lk : {"file"}, keys : KeySets, val : Vals, join : {FALSE}]
 InitOpt == [kind |-> "init", lk |-> "none", keys |-> {}, val |-> 0, join |-> FALSE]
 \* a joined loader needs a variadic call before it
